@@ -120,7 +120,15 @@ impl HolderKey {
         }
     }
     pub fn jwk(self) -> Option<Jwk> {
-        self.jwk_text().map(|t| serde_json::from_str(t).unwrap())
+        self.jwk_text().map(|t| {
+            let mut v: Value = serde_json::from_str(t).unwrap();
+            // the second holder pairs carry the SAME `kid` as the first Ed25519 holder key:
+            // a key must be identified by its material, never by an optional label
+            if matches!(self, HolderKey::Ec2 | HolderKey::Ed2) {
+                v["kid"] = Value::String("52128f2e-900e-414e-81c3-0b5f86f0f7b3".into());
+            }
+            serde_json::from_value(v).unwrap()
+        })
     }
     pub fn jwk_value(self) -> Option<Value> {
         // what the issuer embeds is the serde serialisation of the Jwk type
